@@ -79,7 +79,8 @@ fn gen_model(rng: &mut Rng, idx: usize) -> ModelCfg {
     // the declared rate unit decides how the model's number is read: any unit of the same energy kind is a valid declaration
     let eru = match eru {
         EnergyRateUnit::KilowattHoursPerMile | EnergyRateUnit::KilowattHoursPerKilometer | EnergyRateUnit::KilowattHoursPerMeter => *rng.pick(&[EnergyRateUnit::KilowattHoursPerMile, EnergyRateUnit::KilowattHoursPerMile, EnergyRateUnit::KilowattHoursPerKilometer, EnergyRateUnit::KilowattHoursPerMeter]),
-        other => other,
+        // liquid-fuel models: gasoline or diesel gallons
+        _ => *rng.pick(&[EnergyRateUnit::GallonsGasolinePerMile, EnergyRateUnit::GallonsGasolinePerMile, EnergyRateUnit::GallonsDieselPerMile]),
     };
     ModelCfg {
         file,
